@@ -144,6 +144,13 @@ def process_graphql_query(
                 runtime=runtime,
             ),
             _on_end,
+            # An `ExecutionError` raised once execution has been deferred to
+            # the runtime (e.g. by a resolver) ends up in the wrapped value:
+            # report it like the synchronous case below.
+            else_=(
+                ExecutionError,
+                lambda err: _on_end(GraphQLResult(data=None, errors=[err])),
+            ),
         )
     except VariablesCoercionError as err:
         return _abort(data=None, errors=err.errors)
